@@ -299,36 +299,52 @@ def str_escape_table(prog):
 
 
 def uri_escape_table(prog):
-    """{byte after backslash: 'keep' (backslash stays) | 'char' (only the char) } and what the default arm does"""
+    """{byte after backslash: 'keep' (backslash stays) | 'char' (only the char)} and what every other byte leads to, computed byte
+    by byte: from the point where the byte after the backslash has been peeked, the branches that depend on it are followed for
+    each of the 256 values and the effects up to the loop's `advance` are read off (two pushes / one push / the \\uXXXX reader).
+    A `match`, an if-chain with `matches!`, or a helper give the same table."""
     body = prog.get("haystack::encoding::zinc::decode::scalar::uri::parse_uri")
     if body is None:
         return None, None, None
-    # the peeked byte: local holding the Ok value of Scanner::peek
-    sw = None
-    for b in body.rpo():
-        t = body.term(b)
+    start = var = None
+    for sb in body.rpo():
+        t = body.term(sb)
         if t["k"] == "switch":
-            v = G.describe(body, t["op"])
-            if "peek" in repr(v) and v.kind != "discr":
-                sw = (b, t)
+            d = G.describe(body, t["op"])
+            if d.kind == "discr" and "Scanner::peek" in repr(d) and "branch" in repr(d):
+                vals = {int(x): tb for x, tb in t["targets"]}
+                start = vals.get(0)
                 break
-    if sw is None:
-        # switch operand is a plain local copied from the Continue payload
-        for b in body.rpo():
-            t = body.term(b)
-            if t["k"] == "switch" and len(t["targets"]) >= 5 and t.get("ty") == "u8":
-                sw = (b, t)
-                break
-    if sw is None:
+    if start is None:
         return None, None, body
-    b, t = sw
+    cand = set()
+    for sb in body.reachable(start):
+        t = body.term(sb)
+        if t["k"] == "switch":
+            for m in re.finditer(r"(_\d+ as Continue\.0)", repr(G.describe(body, t["op"]))):
+                cand.add(m.group(1))
+    # the peek's own payload is the first one assigned after `start`
+    if not cand:
+        return None, None, body
+    var = sorted(cand, key=lambda x: int(re.match(r"_(\d+)", x).group(1)))[0]
     tab = {}
-    for val, tb in t["targets"]:
-        eff = arm_effect(body, tb)
-        pushes = eff["push"]
-        tab[int(val)] = "keep" if len(pushes) == 2 and any(p.endswith(".cur") for p in pushes) else ("char" if len(pushes) == 1 else "?")
-    deff = arm_effect(body, t["otherwise"])
-    return tab, deff, body
+    default = {}
+    for v in range(256):
+        calls = G.calls_along_path(body, var, start, v, scanai.U8_PREDS, stop=("advance",))
+        if calls is None:
+            return None, None, body
+        pushes = sum(1 for c in calls if c == "std::vec::Vec::push")
+        uni = any(c.endswith("parse_str_unicode_escape") for c in calls)
+        kind = "unicode" if uni else ("keep" if pushes == 2 else ("char" if pushes == 1 else "?"))
+        default[kind] = default.get(kind, 0) + 1
+        tab[v] = kind
+    # the default arm is the behaviour of the bytes not singled out: the most frequent one
+    dkind = max(default, key=lambda k: default[k])
+    explicit = {v: k for v, k in tab.items() if k != dkind}
+    ucalls = G.calls_along_path(body, var, start, ord("u"), scanai.U8_PREDS, stop=("advance",)) or []
+    # what happened before the byte was peeked on this path also counts (a read hoisted above the branches is after the peek)
+    deff = {"strs": [], "push": [], "calls": [c.split("::")[-1] for c in ucalls] if dkind == "unicode" else []}
+    return explicit, deff, body
 
 
 # ---------------------------------------------------------------------- the checks
